@@ -58,54 +58,63 @@ ProvOf(pk, c1, c2) ==
      [] pk = "atvp" -> [pk |-> "atvp", mem |-> <<[pk |-> "atvp", data |-> Cur(c1, c2)]>>]
      [] OTHER       -> [pk |-> "comp", mem |-> <<[pk |-> "dict", data |-> Cur1(c1)], [pk |-> "dict", data |-> Cur2(c2)]>>]
 
-VARIABLES ph, b, t, c1, c2
-vars == <<ph, b, t, c1, c2>>
-Init == ph = "start" /\ b = 0 /\ t = <<>> /\ c1 = 1 /\ c2 = 1
-ToBucket == ph = "start"  /\ ph' = "bucket" /\ b' \in 0..(NB - 1) /\ UNCHANGED <<t, c1, c2>>
-ToCase   == ph = "bucket" /\ ph' = "case" /\ b' = b /\ t' \in {x \in AllLists : Bucket(x) = b}
-                          /\ c1' \in 1..3 /\ c2' \in 1..3
-Next == ToBucket \/ ToCase
-Spec == Init /\ [][Next]_vars
-
-OnCase(P) == ph = "case" => P
-\* the pool is parsed once (constant-level definitions are cached by TLC); ParseLaw ties both parsers to Render
+\* the pool is parsed once (TLCEval: evaluated eagerly and cached by TLC); ParseLaw ties both parsers to Render
 PoolAlg == TLCEval([i \in 1..PN |-> AlgParse(Text0[i], PS0, Sep0)])
 PoolDef == TLCEval([i \in 1..PN |-> DefParses(Text0[i], SeqToSet(PS0), Sep0)])
 RECURSIVE SelOf(_)
 SelOf(x) == IF x = <<>> THEN <<>> ELSE (IF PoolAlg[Head(x)].ok THEN <<PoolAlg[Head(x)].t>> ELSE <<>>) \o SelOf(Tail(x))
-Sel == SelOf(t)                                             \* = AlgSelect(Tags, PS0, Sep0)
-Act == UNION {PoolDef[t[i]] : i \in DOMAIN t}               \* = DefActive(Tags, SeqToSet(PS0), Sep0)
-Tags == [i \in DOMAIN t |-> Text0[t[i]]]
-DefOf(cur) == DefExcludedA(Act, N0, cur)
-Def  == DefOf(Cur(c1, c2))
-Alg(pk) == AlgExcludedSel(Sel, ProvOf(pk, c1, c2), TRUE)
+ActOf(x) == UNION {PoolDef[x[i]] : i \in DOMAIN x}
+\* everything the laws speak about, computed once per state (variable res)
+Results(x, a1, a2) ==
+   LET sel == SelOf(x)                                        \* = AlgSelect(Tags, PS0, Sep0)
+       act == ActOf(x)                                        \* = DefActive(Tags, SeqToSet(PS0), Sep0)
+       pc  == ProvOf("comp", a1, a2)
+       k1  == AlgCallSel(sel, pc, TRUE, EmptyCache)
+       k2  == AlgCallSel(sel, pc, TRUE, k1.cache)
+   IN [def   |-> DefExcludedA(act, N0, Cur(a1, a2)),
+       def1  |-> DefExcludedA(act, N0, Cur1(a1)),
+       def2  |-> DefExcludedA(act, N0, Cur2(a2)),
+       defU  |-> DefExcludedA(act, N0, (CU :> Junk) @@ Cur(a1, a2)),
+       dict  |-> AlgExcludedSel(sel, ProvOf("dict", a1, a2), TRUE),
+       run   |-> AlgRunSel(sel, ProvOf("dict", a1, a2), TRUE),
+       atvp  |-> AlgExcludedSel(sel, ProvOf("atvp", a1, a2), TRUE),
+       comp  |-> k1.ex,
+       warm  |-> k2.ex,
+       cacheok |-> /\ k2.cache = k1.cache
+                   /\ \A c \in DOMAIN k1.cache : c \in {C1, C2} /\ k1.cache[c] = Cur(a1, a2)[c],
+       notign |-> AlgExcludedSel(sel, ProvOf("dict", a1, a2), FALSE),
+       many  |-> AlgCompositeSel(sel, <<DictProv(Cur1(a1)), DictProv(Cur2(a2))>>, TRUE),
+       none  |-> AlgCompositeSel(sel, <<>>, TRUE)]
 
+VARIABLES ph, b, t, c1, c2, res
+vars == <<ph, b, t, c1, c2, res>>
+Init == ph = "start" /\ b = 0 /\ t = <<>> /\ c1 = 1 /\ c2 = 1 /\ res = Results(<<>>, 1, 1)
+ToBucket == ph = "start"  /\ ph' = "bucket" /\ b' \in 0..(NB - 1) /\ UNCHANGED <<t, c1, c2, res>>
+ToCase   == ph = "bucket" /\ ph' = "case" /\ b' = b /\ t' \in {x \in AllLists : Bucket(x) = b}
+                          /\ c1' \in 1..3 /\ c2' \in 1..3 /\ res' = Results(t', c1', c2')
+Next == ToBucket \/ ToCase
+Spec == Init /\ [][Next]_vars
+
+OnCase(P) == ph = "case" => P
+Tags == [i \in DOMAIN t |-> Text0[t[i]]]
 \* the cached pool parse is the parse of the rendered list (checked on the lists of one bucket: all pool members occur)
-PoolParse == OnCase(b = 0 => /\ Sel = AlgSelect(Tags, PS0, Sep0) /\ Act = DefActive(Tags, SeqToSet(PS0), Sep0)
-                             /\ Alg("dict") = AlgExcluded(Tags, PS0, Sep0, ProvOf("dict", c1, c2), TRUE)
-                             /\ Def = DefExcluded(Tags, SeqToSet(PS0), N0, Sep0, Cur(c1, c2)))
+PoolParse == OnCase(b = 0 => /\ SelOf(t) = AlgSelect(Tags, PS0, Sep0) /\ ActOf(t) = DefActive(Tags, SeqToSet(PS0), Sep0)
+                             /\ res.dict = AlgExcluded(Tags, PS0, Sep0, ProvOf("dict", c1, c2), TRUE)
+                             /\ res.def = DefExcluded(Tags, SeqToSet(PS0), N0, Sep0, Cur(c1, c2)))
 \* the grouped algorithm of the code decides exactly the definitional formula of the statement
-AlgEqDef == OnCase(Alg("dict") = Def)
-RunIsNegation == OnCase(AlgRunSel(Sel, ProvOf("dict", c1, c2), TRUE) = ~Def)
+AlgEqDef == OnCase(res.dict = res.def)
+RunIsNegation == OnCase(res.run = ~res.def)
 \* a composite matcher over members that know one category each = "some known category excludes"
-CompositeAny == OnCase(
-   LET m == AlgCompositeSel(Sel, <<DictProv(Cur1(c1)), DictProv(Cur2(c2))>>, TRUE) IN
-   /\ m = (DefOf(Cur1(c1)) \/ DefOf(Cur2(c2)))
-   /\ m = Def
-   /\ ~AlgCompositeSel(Sel, <<>>, TRUE))
+CompositeAny == OnCase(res.many = (res.def1 \/ res.def2) /\ res.many = res.def /\ ~res.none)
 \* the cache of the composite provider holds only true values and a warm cache does not change the answer
-CacheSound == OnCase(
-   LET p  == ProvOf("comp", c1, c2)
-       r1 == AlgCallSel(Sel, p, TRUE, EmptyCache)
-       r2 == AlgCallSel(Sel, p, TRUE, r1.cache)
-   IN /\ r2.ex = r1.ex /\ r2.cache = r1.cache
-      /\ \A c \in DOMAIN r1.cache : c \in {C1, C2} /\ r1.cache[c] = Cur(c1, c2)[c])
+CacheSound == OnCase(res.warm = res.comp /\ res.cacheok)
 \* unknown categories: with ignore_unknown_categories=False the group of an unknown category behaves like a
 \* known category whose value matches nothing (documented in features/tags.active_tags.feature; not part of C19)
-NotIgnored == OnCase(AlgExcludedSel(Sel, ProvOf("dict", c1, c2), FALSE) = DefOf((CU :> Junk) @@ Cur(c1, c2)))
+NotIgnored == OnCase(res.notign = res.defU)
 \* SOFT (printed, never stops TLC): the provider classes of behave answer like a plain dict
 ProviderTransparent == OnCase(
-   \A pk \in {"atvp", "comp"} : Alg(pk) = Alg("dict") \/ PrintT(<<"DESIGN", "ProviderTransparent", pk, t, c1, c2>>))
+   /\ (res.atvp = res.dict \/ PrintT(<<"DESIGN", "ProviderTransparent", "atvp", t, c1, c2>>))
+   /\ (res.comp = res.dict \/ PrintT(<<"DESIGN", "ProviderTransparent", "comp", t, c1, c2>>)))
 
 \* ---------------------------------------------------------------- laws checked once, in the start state
 Schemas == {<<PS0, Sep0>>, <<PS1, Sep1>>}
@@ -148,6 +157,5 @@ EmitPool == ph = "start" =>
    PrintT(<<"POOL", ToJson([pool |-> [i \in 1..PN |-> [k |-> Pool[i].k, pre |-> Pool[i].pre, cat |-> Pool[i].cat,
                                                         val |-> Pool[i].val, text |-> Text0[i]]],
                             prefixes |-> PS0, sep |-> Sep0, cats |-> CatsQ, vals |-> ValsQ, cur |-> <<T1, T2, T3>>])>>)
-Emit == OnCase(PrintT(<<"CASE", ToJson([t |-> t, v |-> <<c1, c2>>,
-                                        ex |-> <<Alg("dict"), Alg("atvp"), Alg("comp")>>, d |-> Def])>>))
+Emit == OnCase(PrintT(<<"CASE", ToJson([t |-> t, v |-> <<c1, c2>>, ex |-> <<res.dict, res.atvp, res.comp>>, d |-> res.def])>>))
 =============================================================================
